@@ -10,6 +10,35 @@ MAX_PATHS = 128
 NORETURN = {"assert_handler", "terminate", "abort", "unreachable", "raise", "call_assert_handler", "default_assert_handler"}
 
 
+def inline_bool_locals(path):
+    """a condition that is just a local declared earlier on the path with a boolean expression as initialiser
+    (`auto const found = pos != end() && !cmp(value, *pos); if (found) ...`) is replaced by that expression"""
+    decls = {}
+    out = []
+    for ev in path:
+        if ev[0] == "decl" and isinstance(ev[1], dict) and ev[1].get("init") is not None and ev[1].get("n"):
+            i0 = astx.strip_casts(ev[1]["init"])
+            while i0 is not None and i0.get("k") == "paren":
+                i0 = astx.strip_casts(i0.get("e"))
+            if i0 is not None and ((i0.get("k") == "bin" and i0.get("op") in ("&&", "||", "and", "or", "==", "!=", "<", ">", "<=", ">=")) or
+                                   (i0.get("k") == "un" and i0.get("op") == "!")):
+                decls[ev[1]["n"]] = i0
+        if ev[0] == "cond" and decls:
+            c = astx.strip_casts(ev[1])
+            neg = False
+            while c is not None and ((c.get("k") == "un" and c.get("op") == "!") or c.get("k") == "paren"):
+                if c.get("k") == "un":
+                    neg = not neg
+                c = astx.strip_casts(c.get("e"))
+            if c is not None and c.get("k") == "ref" and c.get("n") in decls and c.get("d") in ("local", None, "var"):
+                e = decls[c["n"]]
+                if neg:
+                    e = {"k": "un", "op": "!", "e": e}
+                ev = (ev[0], e) + tuple(ev[2:])
+        out.append(ev)
+    return out
+
+
 def paths(body):
     """structural paths: lists of ('cond', expr, taken) / ('decl', var) / ('expr', expr) / ('ret', expr)"""
     out = []
@@ -243,7 +272,7 @@ def s2_guarded_insertion(chk, db, rec_q, funcs, needs_full):
         keys = set(p0["n"] for p0 in f["params"])
         reach_gt = False
         any_ins = False
-        for p in paths(f["body"]):
+        for p in map(inline_bool_locals, paths(f["body"])):
             lb_vars = set()
             have_lb = have_test = have_full = False
             feasible = {"=": True, ">": True}
@@ -450,7 +479,7 @@ def s7_insert_result(chk, db, rec_q, funcs):
         chk.instance("S7")
         bad = None
         keys = set(p0["n"] for p0 in f["params"])
-        for p in paths(f["body"]):
+        for p in map(inline_bool_locals, paths(f["body"])):
             pos_vars = set()
             lcn = set(cn)
             feasible_eq = True
@@ -732,7 +761,7 @@ def s5_iterator_reuse(chk, funcs):
     for f in funcs:
         has = False
         bad = None
-        for p in paths(f["body"]):
+        for p in map(inline_bool_locals, paths(f["body"])):
             dead = {}
             for ev in p:
                 for e in event_exprs(ev):
@@ -782,7 +811,7 @@ def s6_handover(chk, db, rec_q, funcs):
         chk.instance("S6")
         bad = None
         moved_to_value = False
-        for p in paths(f["body"]):
+        for p in map(inline_bool_locals, paths(f["body"])):
             refs = set()
             for ev in p:
                 if ev[0] == "decl":
@@ -801,7 +830,7 @@ def s6_handover(chk, db, rec_q, funcs):
         # clear(), exchange(member, {}) or an assignment of an empty container to the member
         not_emptied = None
         if bad is None and moved_to_value:
-            for p in paths(f["body"]):
+            for p in map(inline_bool_locals, paths(f["body"])):
                 emptied = False
                 for ev in p:
                     for e in event_exprs(ev):
